@@ -12,25 +12,25 @@ T = {
  "C03": (E1 + "+" + E2, "bounded exhaustive enumeration of encoding grids + property-based mutation + coverage-guided fuzzing with round-trip / strict-parser differential oracles",
          "Enumerated grids (public keys: every prefix byte x every length x boundary / on-curve / tiny-coordinate x and y incl. x+p, y+p re-encodings; DER: every structural variant x boundary scalars; compact incl. (r, s+n) of constructed valid signatures), Hypothesis mutations and a libFuzzer target, all decided by pyref's strict parsers and by round trips; failed-parse objects are checked never to verify."),
  "C04": (E1, "model-based property testing: generated tweak histories applied to the secret side, the public side and an integer/point model; list properties for combine / cmp / sort",
-         "Generated histories (up to 40 mixed add/mul/negate/x-only/keypair/taproot operations with state-relative boundary tweaks such as -key and n) compared step by step with a reference model of the key algebra incl. exact failure conditions and unusable outputs; combine/cmp/sort over lists of 0..200 keys with duplicates and cancelling pairs (sortedness and permutation)."),
+         "Generated histories (up to 40 mixed add/mul/negate/x-only/keypair/taproot operations with state-relative boundary tweaks such as -key and n) compared step by step with a reference model of the key algebra incl. exact failure conditions and unusable outputs; combine/cmp/sort over lists of 0..200 keys with duplicates and cancelling pairs (sortedness and permutation); argument aliasing (tweak buffer = key buffer, in-place operations) and backward-constructed outputs with tiny coordinates; int64 / int128_struct builds in the quick tier."),
  "C05": (E2 + "+" + E1, "coverage-guided fuzzing of generated straight-line field/scalar/group/ecmult/hash programs against a GMP + textbook SHA-256 oracle, one binary per build configuration",
-         "libFuzzer targets built for each limb / int128 / asm / table configuration decode the input into programs over every internal arithmetic routine (operands incl. raw limbs up to the permitted magnitude, special cases of the group law, multi-scalar batches across the Strauss/Pippenger thresholds, arbitrary hash write splits) and compare every result with GMP / an independent SHA-256; equality with the mathematical result on every configuration implies bit-identity across them."),
+         "libFuzzer targets built for each limb / int128 / asm / table configuration decode the input into programs over every internal arithmetic routine (operands incl. raw limbs up to the permitted magnitude, special cases of the group law, multi-scalar batches across the Strauss/Pippenger thresholds, arbitrary hash write splits) and compare every result with GMP / an independent SHA-256; operands are also CONSTRUCTED (chosen result / chosen quotient / chosen limb product solved with GMP) so that reduction and carry-chain corner cases of probability 2^-64..2^-126 are reached; equality with the mathematical result on every configuration implies bit-identity across them."),
  "C06": (E3, "generated scenario lists executed under valgrind memcheck with secrets marked undefined (definedness tracking as the oracle), shrunk to the offending invocation",
          "Hypothesis generates public-parameter variations of every API on the maintainers' constant-time list; each runs under memcheck on four limb configurations at the shipped optimisation level with all secret arguments undefined; any branch or address depending on undeclassified secret data is reported."),
- "C07": (E2, "structure-aware coverage-guided fuzzing of every parser / verifier under ASan+UBSan+VERIFY with callback counters, return-value and allocation-balance oracles inside the target",
-         "A libFuzzer target takes memoised valid artifacts of every type, applies decoded mutations or raw bytes, calls each untrusted-bytes entry point on exact-size heap copies with declared lengths 0..max+64, pushes successfully parsed objects through every consumer, and checks: no sanitizer report or VERIFY abort, no illegal/error callback, return values in {0,1}, allocation balance 0."),
+ "C07": (E2 + "+" + E1, "structure-aware coverage-guided fuzzing of every parser / verifier under ASan+UBSan+VERIFY with callback counters, return-value and allocation-balance oracles inside the target",
+         "A libFuzzer target takes memoised valid artifacts of every type, applies decoded mutations or raw bytes, calls each untrusted-bytes entry point on exact-size heap copies with declared lengths 0..max+64, pushes successfully parsed objects through every consumer, and checks: no sanitizer report or VERIFY abort, no illegal/error callback, return values in {0,1}, allocation balance 0; documented NULL-with-zero-length arguments are exercised; an E1 supplement declares lengths of k*2^32 (+-1) trailing bytes in a lazily mapped region for the parsers."),
  "C08": (E1, "property-based testing: differential against an independent Pedersen / generator model (Shallue-van de Woestijne), enumerated parser grids, tally ground truth by reference point sums",
          "Generated blinding factors, values, generators from four sources, tallies over mixed generators balanced and unbalanced by one unit, blind-sum helpers, and all 33-byte strings over every prefix x boundary/on/off-curve x, decided against pyref.pedersen."),
  "C09": (E1, "property-based testing: round-trip (sign -> verify / info / rewind), determinism and documented parameter-region oracles over edge-biased parameters",
          "Generated (value, min_value, exp, min_bits, blind, nonce, message, extra commitment, buffer size, generator) tuples; documented-invalid sets must fail, the strict interior of the documented-valid set must succeed, and every success must satisfy size bound, verification, range, info equality, rewind of value/blind/message, wrong-nonce failure and byte determinism."),
  "C10": (E1, "property-based testing: differential against an independent range-proof verifier, with a reference PROVER that chooses every free value adversarially",
-         "Library proofs with every/sampled bit flips, truncations, extensions, other commitments, and reference-prover proofs with chosen header fields, small forged scalars and their s+n twins, re-encoded digit commitments, spare sign bits, trailing bytes, overflowing ranges; verdict and reported range must equal pyref.rangeproof; rewind of crafted valid proofs must be clean."),
+         "Library proofs with every/sampled bit flips, truncations, extensions, other commitments, and reference-prover proofs with chosen header fields, small forged scalars and their s+n twins, re-encoded digit commitments, spare sign bits, trailing bytes, overflowing ranges; verdict and reported range must equal pyref.rangeproof; rewind of crafted valid proofs must be clean; cancelling digit commitments, digit commitments on tiny-x points (x+p twins) and declared lengths beyond 2^32 are constructed."),
  "C11": (E1, "bounded exhaustive enumeration (n <= 8) + property-based testing: differential against an independent surjection-proof verifier and reference prover, canonical-parser oracle",
          "All input counts / subset sizes / positions and multiplicities of the matching tag for n <= 8, sampled up to 256, adversarial and mutated proofs from a reference prover, parser strings over every n_inputs value, padding pattern and length, decided against pyref.surjection."),
  "C12": (E1, "model-based property testing: generated MuSig2 sessions compared value by value with an independent BIP-327 reference (+ adaptor extension)",
          "Generated sessions (1..16 signers, duplicate keys, tweak sequences flipping parity, both nonce-generation entry points with every optional argument, counters across 2^32, cancelling nonces giving infinity, adaptor) where every API output must equal pyref.musig and the protocol invariants (partial verification, final BIP-340 validity, adapt/extract inverses) must hold."),
  "C13": (E1, "bounded exhaustive enumeration of call histories (depth 3 quick / 4 thorough over a 28-operation alphabet) against an abstract single-use model + randomized long histories",
-         "Every history up to the bound over nonce generation and partial signing with valid / invalid / NULL / negated-key arguments on two nonce slots is executed by a C sequence runner and its per-step observations (return value, secnonce all-zero, randomness wiped, callback, signature validity) compared with the single-use model."),
+         "Every history up to the bound over nonce generation and partial signing with valid / invalid / NULL / negated-key arguments on two nonce slots is executed by a C sequence runner and its per-step observations (return value, secnonce all-zero, randomness wiped, callback, signature validity) compared with the single-use model; objects live at generated byte offsets (alignment as an input dimension) and generation ops alias the randomness buffer with other arguments."),
  "C14": (E1, "property-based testing: pipeline round trips + differential against an independent adaptor-signature reference (DLEQ + adaptor equation) over all single-bit flips and field substitutions; small-group builds for scalar range checks",
          "Generated keys/messages incl. boundaries and >= n, all nonce sources, every single-bit flip and boundary substitution of the 162-byte format decided by pyref.adaptor, recovery from both s twins and refusal of unrelated signatures; order-13/199 builds for the s' and DLEQ-response range checks."),
  "C15": (E1, "property-based testing: protocol histories (sign-to-contract, anti-exfil) with round-trip, metamorphic (same / different host randomness) and differential oracles across context variants",
